@@ -255,6 +255,12 @@ fn three_custom(w: &mut ZW, c: Color, a: Animal, n: CustomU64) {
     rec(w, format!("three_custom({c:?},{a:?},{})", n.0));
 }
 
+// an expression that is text only, with escaped reserved characters (they stand for themselves)
+#[given(expr = "the ratio is 5 \\/ 10 \\(approx\\)")]
+fn expr_escapes(w: &mut ZW) {
+    rec(w, "expr_escapes()".into());
+}
+
 // regexes whose leading literal run ends in a quantified character
 #[given(regex = r"^colou?r is (\w+)$")]
 fn opt_char(w: &mut ZW, c: String) {
@@ -374,6 +380,7 @@ pub fn entries() -> Vec<Entry> {
             let an = if g(c, 2) == "cat" { "Cat" } else { "Dog" };
             g(c, 3).parse::<u64>().ok().map(|n| format!("three_custom({col},{an},{n})"))
         }, templates: &["a {c} cat and {n} more", "a {c} dog and {n} more", "a cat {c} and {n} more"] },
+        Entry { func: "expr_escapes", kw: Given, re: r"^the ratio is 5 / 10 \(approx\)$", expect: |_, _| Some("expr_escapes()".into()), templates: &["the ratio is 5 / 10 (approx)", "the ratio is 5 \\/ 10 \\(approx\\)", "the ratio is 5 / 10 approx"] },
         Entry { func: "opt_char", kw: Given, re: r"^colou?r is (\w+)$", expect: |c, _| Some(format!("opt_char({:?})", g(c, 1))), templates: &["color is {w}", "colour is {w}", "colo is {w}"] },
         Entry { func: "opt_char2", kw: When, re: r"^an? (\w+) is eaten$", expect: |c, _| Some(format!("opt_char2({:?})", g(c, 1))), templates: &["a {w} is eaten", "an {w} is eaten", "ann {w} is eaten"] },
         Entry { func: "star_char", kw: Then, re: r"^ab*c is spel{1,2}ed$", expect: |_, _| Some("star_char()".into()), templates: &["ac is speled", "abc is spelled", "abbbc is spelled", "abc is spellled"] },
